@@ -454,6 +454,29 @@ def check_case(case, lean_out, real=None, use_model=True):
                 return cm.ed_dense(ed)
             attempt('grouped_segment', grouped_segment)
         attempt('window', lambda: cm.mpo_window_dense(M.H_MPO, n_cells * N))
+        if case.get('shift_pairs') and not real.get('plain'):
+            # term lists of the merged containers against the brute-force sum of the added terms (bosonic operators,
+            # strings 'Id': a TermList entry is the plain product of its operators): every term starting in the first unit
+            # cell is listed once with its strength; its translates by whole unit cells fill the window
+            def termlist_window():
+                mbw = oc.ManyBody(lat.mps_sites() * n_cells)
+                ot_ = M.all_onsite_terms()
+                ot_.remove_zeros()
+                ct_ = M.all_coupling_terms()
+                ct_.remove_zeros()
+                Ht = mbw.zero()
+                for tl in (ot_.to_TermList(), ct_.to_TermList()):
+                    for term, strength in zip(tl.terms, tl.strength):
+                        for n in range(n_cells):
+                            ops = {int(i) + n * N: op for op, i in term}
+                            if min(ops) < 0 or max(ops) >= n_cells * N:
+                                continue
+                            Ht = Ht + complex(strength) * mbw.string(ops)
+                Ht = oc.dense(Ht)
+                if explicit:
+                    Ht = Ht + Ht.conj().T
+                return Ht
+            attempt('termlist_window', termlist_window)
         try:
             with warnings.catch_warnings():
                 warnings.simplefilter('ignore')
